@@ -259,7 +259,7 @@ def jumps_ok(fn):
     return not (fn["ret"] is not None and block_falls(fn["body"]))
 
 
-def _moves_of_expr(e, acc, fmode=None):
+def _moves_of_expr(e, acc):
     k = e[0]
     if k in ("v", "f", "i"):
         acc.append(("use", r_place(e)))
@@ -311,7 +311,6 @@ def effects(b):
 def features(fn):
     """labels + the asymmetry flag of the non-triviality rule."""
     labs = set()
-    src_places = set()
 
     def walk(b, ld):
         for s in b:
@@ -352,7 +351,6 @@ def features(fn):
         labs.add("borrowed_param")
     if any(m == "borrowed" and ty in ("S2", "SI", "T") for _, ty, m in fn["params"]):
         labs.add("borrowed_aggregate")
-    del src_places
     return labs
 
 
@@ -384,8 +382,13 @@ def stale_struct_wire(fn):
                 else:
                     whole_uses(a, acc)
 
-    def scan(b):
-        stale = set()
+    def scan(b, stale):
+        """-> (found, stale set at the end | None if the block cannot complete normally).  The
+        set is carried exactly as far as Guppy's CFG builder keeps statements in one basic block:
+        branches and loop heads/bodies start fresh blocks, a join of two completing branches
+        starts a fresh block, but after an `if` of which only one branch completes the code goes
+        on in that branch's block."""
+        stale = set(stale)
         for s in b:
             k = s[0]
             if k in ("assign", "expr", "return"):
@@ -395,7 +398,7 @@ def stale_struct_wire(fn):
                     whole_uses(e, uses)
                 for x, own in uses:
                     if x in stale:
-                        return True
+                        return True, None
                     if own:
                         stale.add(x)
                     else:
@@ -405,17 +408,31 @@ def stale_struct_wire(fn):
                     _targets(s[1], tg)
                     for _, txt in tg:
                         stale.discard(txt)  # whole re-assignment (`s = ...`)
+                if k == "return":
+                    return False, None
+            elif k in ("break", "continue"):
+                return False, None
             elif k == "if":
-                if scan(s[2]) or scan(s[3]):
-                    return True
-                stale = set()
+                f1, o1 = scan(s[2], ())
+                f2, o2 = scan(s[3], ())
+                if f1 or f2:
+                    return True, None
+                if o1 is not None and o2 is not None:
+                    stale = set()
+                elif o1 is not None:
+                    stale = o1
+                elif o2 is not None:
+                    stale = o2
+                else:
+                    return False, None
             elif k == "while":
-                if scan(s[2]):
-                    return True
+                f1, _ = scan(s[2], ())
+                if f1:
+                    return True, None
                 stale = set()
-        return False
+        return False, stale
 
-    return scan(fn["body"])
+    return scan(fn["body"], ())[0]
 
 
 # ------------------------------------------------------------------------------- generator
